@@ -207,6 +207,25 @@ def query_message(ctx, q, m, spec, origin, npaths):
                 ctx.violate('query-result-differs/%s/%s/%s' % (shape, kind, mode),
                             'query %r returned %r, evaluation over the nested view gives %r' % (full, obs[1], ref[1]),
                             dict(spec, expr=full), expected=ref[1], observed=obs[1])
+            else:
+                # a result belongs to the caller: results of queries on EARLIER messages, kept while this querent went on to answer
+                # queries about other messages, still give the values they designated when they are read now
+                held = ctx.__dict__.setdefault('_c16_held', [])
+                late = [h for h in held if h[4] != id(m)]
+                for hq, href, hk, hfull, hid, hm in late:
+                    held.remove((hq, href, hk, hfull, hid, hm))
+                    ctx.count('query_results_read_after_later_queries')
+                    try:
+                        now = (norm(hq.all_values()[0]) if hq.subset_indices() else None, hq.subset_indices())
+                    except Exception as ex:
+                        now = ('raises ' + type(ex).__name__,)
+                    if now != (href, hk):
+                        ctx.violate('query-result-read-late-differs/%s' % mode, 'the result of query %r on an earlier message, read after the same querent answered '
+                                    'queries about another message, gives %r; it designated %r' % (hfull, now, (href, hk)), dict(spec, expr=hfull, later_expr=full),
+                                    expected=href)
+                        break
+                if len(held) < 3 and ref[1] and rng.random() < 0.3:
+                    held.append((qr, ref[1], [k], full, id(m), m))
     # ---- subset selectors on a few paths: queries over SEVERAL subsets at once, judged per subset against that
     # subset's own nested view (attribute steps first: which node owns a bitmap-driven attribute is per-subset data)
     attr_paths = [p for p in allp if any(sep == '.' for sep, _ in p)]
